@@ -64,8 +64,8 @@ def formula_cases(rng, n):
         n_steps = None if rng.random() < 0.3 else int(rng.integers(1, 7))
         d = [Fraction(1), Fraction(1, 2), Fraction(3, 4), Fraction(0), Fraction(9, 10)][int(rng.integers(0, 5))]
         metric = ['neg_mean_squared_error', 'neg_mean_absolute_error'][cid % 2]
-        es_kind = ['nan', 'raise', 'finite_low', 'finite_high'][int(rng.integers(0, 4))]
-        es = {'nan': np.nan, 'raise': 'raise', 'finite_low': -1000.0, 'finite_high': -0.5}[es_kind]
+        es_kind = ['nan', 'raise', 'finite_low', 'finite_high', 'zero', 'zero_int'][cid % 6]
+        es = {'nan': np.nan, 'raise': 'raise', 'finite_low': -1000.0, 'finite_high': -0.5, 'zero': 0.0, 'zero_int': 0}[es_kind]
         kw = shared_kw if cid % 3 == 0 else None
         dist[f'{metric[4:]}/{es_kind}'] = dist.get(f'{metric[4:]}/{es_kind}', 0) + 1
         with warnings.catch_warnings():
@@ -83,7 +83,7 @@ def formula_cases(rng, n):
                             kw_keys=sorted(kw)))
             shared_kw.clear()
         want = oracle_score(Xp, Xe, n_steps, float(d), metric, w, ep)
-        if isinstance(es, float) and np.isfinite(es) and want < es:
+        if isinstance(es, (int, float)) and not isinstance(es, bool) and np.isfinite(es) and want < es:
             want_out = ('error_score', es)
         else:
             want_out = ('score', want)
@@ -94,10 +94,11 @@ def formula_cases(rng, n):
         m = 'MSE' if metric == 'neg_mean_squared_error' else 'MAE'
         ns_ = 'None' if n_steps is None else f'(Some {n_steps}%nat)'
         es_ = {'nan': '(Some None)', 'raise': 'None', 'finite_low': f'(Some (Some {qnum(Fraction(-1000))}))',
-               'finite_high': f'(Some (Some {qnum(Fraction(-1, 2))}))'}[es_kind]
+               'finite_high': f'(Some (Some {qnum(Fraction(-1, 2))}))', 'zero': f'(Some (Some {qnum(Fraction(0))}))',
+               'zero_int': f'(Some (Some {qnum(Fraction(0))}))'}[es_kind]
         model = (f'score_trajectory {m} {ns_} {qnum(d)} {es_} {w}%nat {str(ep).lower()} true '
                  f'{qdmat(Xp, ep)} {qdmat(Xe, ep)}')
-        if got is not None and isinstance(es, float) and np.isfinite(es) and got == es:
+        if got is not None and isinstance(es, (int, float)) and np.isfinite(es) and got == es:
             expr = (f'match {model} with ErrorScore => true | Score s => Qle_bool (Qabs (s - {qexact(got)})) (1 # 1000000000) '
                     f'| _ => false end')
         elif got is not None:
@@ -194,7 +195,7 @@ def run(res, tier):
     res.coverage.update(
         evaluations=len(batch.meta) + ev, distinct_nontrivial=len(batch.meta) + ev,
         rule=('Formula: integer trajectories on random episode layouts, min_samples 1..3, n_steps None/1..6, discount in '
-              '{1, 1/2, 3/4, 9/10, 0}, MSE / MAE, error_score in {nan, raise, finite low, finite high}; one call in three shares one '
+              '{1, 1/2, 3/4, 9/10, 0}, MSE / MAE, error_score in {nan, raise, finite low, finite high, 0.0, 0}; one call in three shares one '
               'regression_metric_kw dict; the returned float is compared inside Coq with the exact rational value of the model '
               '(Score.v) to 1e-9, and with an independent oracle. Scorer: exact linear models behind optional delay pipelines; '
               'scorer = score_trajectory(predict_trajectory / predict); perfect model must score 0 (one-step scorer; the '
